@@ -18,7 +18,7 @@ Payloads == { <<"x", SQ, "]", " ", "=", " ", "_", "_", "v", "(", ")", " ", "#">>
 \* the alias positions are crossed with the emission paths of to_dict: the single dict literal ("alias"), the per-field
 \* kwargs[...] assignments (omit_none with a converted Optional field: "aliasopt"; omit_default: "aliasdflt") and the
 \* by_alias keyword of TO_DICT_ADD_BY_ALIAS_FLAG ("aliasflag": called as to_dict(by_alias=True))
-Positions == {"alias", "aalias", "cfgalias", "tdkey", "forbid", "literal", "enumvalue", "discrfield", "allowname", "aliasopt", "aliasdflt", "aliasflag", "discrcfg", "literalpair"}
+Positions == {"alias", "aalias", "cfgalias", "tdkey", "forbid", "literal", "enumvalue", "discrfield", "allowname", "aliasopt", "aliasdflt", "aliasflag", "discrcfg", "literalpair", "discrpair"}
 
 \* ---- level 1: lexing theorems over all strings of length <= 4
 ReprSafe   == kind = "start" => \A x \in Strs(4) : Denotes(Repr(x), x)
@@ -43,6 +43,9 @@ RootC(str) == <<"dc", "R", << <<"v", <<"int">>, <<"req">>, <<>> >> >>,
                 << <<"discriminator", DOptsC(str)>>, <<"forbid_extra_keys", TRUE>>, <<"discr_field", str>> >> >>
 SubC(str)  == <<"dc", "A", << <<"v", <<"int">>, <<"req">>, <<>> >> >>,
                 << <<"bases", <<RootC(str)>> >>, <<"classvars", << <<str, S("a")>> >> >>, <<"forbid_extra_keys", TRUE>>, <<"discr_field", str>>, <<"no_config", TRUE>> >> >>
+\* a second hierarchy R2 / A2 discriminated by the SIBLING string: two discriminated positions with different field names in ONE class
+RootE == <<"dc", "R2", << <<"v", <<"int">>, <<"req">>, <<>> >> >>, <<>> >>
+SubE  == <<"dc", "A2", << <<"v", <<"int">>, <<"req">>, <<>> >> >>, << <<"bases", <<RootE>> >>, <<"classvars", << <<SibStr, S("a")>> >> >> >> >>
 F(t, dflt, opts) == <<"f", t, dflt, opts>>
 ClassAt(p, str) ==
   CASE p = "alias"    -> <<"dc", "K", << F(<<"int">>, <<"req">>, << <<"alias", str>> >>) >>, << <<"serialize_by_alias", TRUE>> >> >>
@@ -64,6 +67,8 @@ ClassAt(p, str) ==
                                              <<"g", <<"literal", << S(SibStr) >> >>, <<"req">>, <<>> >> >>, <<>> >>
     [] p = "enumvalue" -> <<"dc", "K", << F(<<"enum", "E", "Enum", << <<"M", S(str)>>, <<"N", S("other")>> >> >>, <<"req">>, <<>>) >>, <<>> >>
     [] p = "discrcfg" -> RootC(str)
+    [] p = "discrpair" -> <<"dc", "K", << F(<<"discr", RootD(str), << <<"field", str>>, <<"include_subtypes", TRUE>> >> >>, <<"req">>, <<>>),
+                                           <<"g", <<"discr", RootE, << <<"field", SibStr>>, <<"include_subtypes", TRUE>> >> >>, <<"req">>, <<>> >> >>, <<>> >>
     [] p = "discrfield" -> <<"dc", "K", << F(<<"discr", RootD(str), << <<"field", str>>, <<"include_subtypes", TRUE>> >> >>, <<"req">>, <<>>) >>, <<>> >>
 
 ValueAt(p, str) ==
@@ -75,6 +80,7 @@ ValueAt(p, str) ==
     [] p = "literalpair" -> <<"obj", "K", << S(str), S(SibStr) >> >>
     [] p = "enumvalue" -> <<"obj", "K", << <<"enum", "E", "M">> >> >>
     [] p = "discrfield" -> <<"obj", "K", << <<"obj", "A", <<I(0)>> >> >> >>
+    [] p = "discrpair" -> <<"obj", "K", << <<"obj", "A", <<I(0)>> >>, <<"obj", "A2", <<I(5)>> >> >> >>
     [] p = "discrcfg" -> <<"obj", "A", <<I(0)>> >>
 
 Init == s = <<>> /\ pos = "none" /\ kind = "start"
@@ -83,12 +89,18 @@ Next == kind = "start" /\ s' \in Strs(MaxLen) \cup Payloads /\ pos' \in Position
 Str == Join(s)
 T == ClassAt(pos, Str)
 Cx == IF pos = "aliasflag" THEN [DefaultCx EXCEPT !.by_alias = "yes"] ELSE DefaultCx
-Wire == IF pos \in {"discrfield", "discrcfg"} THEN <<"skip">> ELSE Pack(T, Cx, ValueAt(pos, Str))
+Wire == IF pos \in {"discrfield", "discrcfg", "discrpair"} THEN <<"skip">> ELSE Pack(T, Cx, ValueAt(pos, Str))
 Input == IF pos = "discrcfg" THEN Dct(<< <<S("v"), I(0)>>, <<S(Str), S("a")>> >>)
+         ELSE IF pos = "discrpair"
+         THEN Dct(<< <<S("f"), Dct(<< <<S("v"), I(0)>>, <<S(Str), S("a")>> >>)>>, <<S("g"), Dct(<< <<S("v"), I(5)>>, <<S(SibStr), S("a")>> >>)>> >>)
          ELSE IF pos = "discrfield"
          THEN Dct(<< <<S("f"), Dct(<< <<S("v"), I(0)>>, <<S(Str), S("a")>> >>)>> >>)
          ELSE Wire
 Dec == IF pos = "discrcfg" THEN UnpackDiscr(<<SubC(Str)>>, RootC(Str), DOptsC(Str), Cx, Input)
+       ELSE IF pos = "discrpair"
+       THEN LET r1 == UnpackDiscr(<<SubD(Str)>>, RootD(Str), << <<"field", Str>>, <<"include_subtypes", TRUE>> >>, Cx, Input[2][1][2])
+                r2 == UnpackDiscr(<<SubE>>, RootE, << <<"field", SibStr>>, <<"include_subtypes", TRUE>> >>, Cx, Input[2][2][2]) IN
+            IF IsOk(r1) /\ IsOk(r2) THEN Ok(<<"obj", "K", <<r1[2], r2[2]>> >>) ELSE IF IsOk(r1) THEN r2 ELSE r1
        ELSE IF pos = "discrfield"
        THEN LET r == UnpackDiscr(<<SubD(Str)>>, RootD(Str), << <<"field", Str>>, <<"include_subtypes", TRUE>> >>, Cx, Input[2][1][2]) IN
             IF IsOk(r) THEN Ok(<<"obj", "K", <<r[2]>> >>) ELSE r
@@ -101,8 +113,9 @@ ExactlyTheString ==
       [] pos = "aliasopt" -> Wire = Dct(<< <<S(Str), S("2024-01-02")>> >>)
       [] pos = "tdkey" -> Wire = Dct(<< <<S("f"), Dct(<< <<S(Str), I(7)>> >>)>> >>)
       [] pos \in {"literal", "enumvalue"} -> Wire = Dct(<< <<S("f"), S(Str)>> >>)
+      [] pos = "discrpair" -> Dec = Ok(ValueAt(pos, Str))          \* each position dispatches on ITS OWN field name
       [] pos = "literalpair" -> Wire = Dct(<< <<S("f"), S(Str)>>, <<S("g"), S(SibStr)>> >>) /\ Dec = Ok(ValueAt(pos, Str))
       [] OTHER -> TRUE
 
-EmitInv == kind = "case" => PrintT(ToJson(<<"quote", pos, Str, T, ValueAt(pos, Str), Wire, Input, Dec, IF pos = "discrfield" THEN SubD(Str) ELSE IF pos = "discrcfg" THEN SubC(Str) ELSE <<>> >>))
+EmitInv == kind = "case" => PrintT(ToJson(<<"quote", pos, Str, T, ValueAt(pos, Str), Wire, Input, Dec, IF pos = "discrfield" THEN SubD(Str) ELSE IF pos = "discrcfg" THEN SubC(Str) ELSE IF pos = "discrpair" THEN <<"tuple", <<SubD(Str), SubE>> >> ELSE <<>> >>))
 =============================================================================
